@@ -221,6 +221,12 @@ class Evaluator:
             return wrap(v, n.get('tc'), n.get('tw'))
         if k == 'StringLiteral':
             return n.get('v')
+        if k == 'CXXMemberCallExpr' and n['callee']['name'] == 'empty' and str(n['callee'].get('classq', '')).startswith('std::') and n.get('obj') is not None and \
+                n['callee'].get('classq') != 'std::basic_string':
+            sz = self.model.get(self.R.render(n['obj']) + '.size')
+            if sz is not None:
+                self.used.add(self.R.render(n['obj']) + '.size')
+                return sz == 0
         # iterators as (container rendering, position); std range algorithms with a one-parameter lambda
         if k == 'CXXMemberCallExpr' and n['callee']['name'] in ('begin', 'cbegin', 'end', 'cend') and n['callee'].get('classq') == 'std::basic_string' and n.get('obj') is not None:
             sv = self.ev(n['obj'])
